@@ -163,16 +163,27 @@ impl W {
     }
 }
 
+thread_local! {
+    /// extra octets (a multiple of 4) the encoder puts between the fixed part of the DATA header and the inline QoS / payload
+    pub static DATA_HEADER_EXTRA: std::cell::Cell<u8> = const { std::cell::Cell::new(0) };
+}
+
 pub fn encode_sub(s: &Sub, le: bool) -> Vec<u8> {
     let mut w = W { buf: vec![], le };
     let e = if le { 1u8 } else { 0 };
     let (kind, flags) = match s {
         Sub::Data { reader, writer, sn, inline_qos, payload, key_flag } => {
+            // octetsToInlineQos: 16, or more when the sender's (later) protocol version has a longer submessage header;
+            // the extra octets are skipped by a conforming reader whether or not inline QoS follows (RTPS 2.5 9.4.5.4)
+            let extra = DATA_HEADER_EXTRA.with(|x| x.get());
             w.u16(0);
-            w.u16(16);
+            w.u16(16 + extra as u16);
             w.bytes(reader);
             w.bytes(writer);
             w.sn(*sn);
+            for _ in 0..extra {
+                w.buf.push(0xEE);
+            }
             let mut f = e;
             if let Some(q) = inline_qos {
                 f |= 0x02;
